@@ -82,8 +82,12 @@ def check(ctx) -> None:
     for n_ in ast.walk(m.node):
         if isinstance(n_, ast.IfExp) and isinstance(n_.body, ast.Constant) and isinstance(n_.orelse, ast.Constant):
             t = n_.test
-            if n_.body.value == "1" and n_.orelse.value == "0" and isinstance(t, ast.Compare) and \
-                    isinstance(t.ops[0], ast.Eq) and isinstance(t.comparators[0], ast.Constant) and t.comparators[0].value == 1:
+            one_is_level_1 = isinstance(t, ast.Compare) and len(t.ops) == 1 and isinstance(t.ops[0], ast.Eq) and \
+                any(isinstance(x, ast.Constant) and x.value == 1 and not isinstance(x.value, bool) for x in (t.left, t.comparators[0]))
+            zero_otherwise = isinstance(t, ast.Compare) and len(t.ops) == 1 and isinstance(t.ops[0], ast.NotEq) and \
+                any(isinstance(x, ast.Constant) and x.value == 1 and not isinstance(x.value, bool) for x in (t.left, t.comparators[0]))
+            if (n_.body.value == "1" and n_.orelse.value == "0" and one_is_level_1) or \
+                    (n_.body.value == "0" and n_.orelse.value == "1" and zero_otherwise):
                 conv = True
     ctx.ob("ROLE-readout", "MPS bit convention", m.loc(), conv,
            "a sampled outcome is written '1' exactly when the site is in level 1 (r); g and x read '0'" if conv else
